@@ -45,6 +45,15 @@ class LimitGatedScheduler {
           unlimited_(res == std::numeric_limits<ssize_t>::max()),
           serial_(res == 1) {}
 
+    // Items that were queued after wait() made its discard pass (exception case) are still in the
+    // local queue; their OnceFunctions must be released explicitly or the items they hold leak.
+    ~Impl() {
+      OnceFunction discard;
+      while (queue_.try_dequeue(discard)) {
+        discard.cleanupNotRun();
+      }
+    }
+
     template <typename F>
     void schedule(F&& fPipe) {
       outstanding_.fetch_add(1, std::memory_order_acq_rel);
